@@ -244,6 +244,9 @@ func (t *QCPendingTree) insertOrphan(node *ProposalNode) error {
 		return nil
 	}
 	// 遍历整个Sli，查看是否能够挂上
+	// scan the whole list: every orphan root that is a son of node is collected below it, and node is
+	// hung below its parent if some orphan tree holds it; only otherwise node becomes a new orphan root
+	hung := false
 	ptr := t.OrphanList.Front()
 	for ptr != nil {
 		curPtr := ptr
@@ -257,22 +260,24 @@ func (t *QCPendingTree) insertOrphan(node *ProposalNode) error {
 			t.OrphanList.Remove(curPtr)
 			continue
 		}
-		// 查看头节点是否是node的儿子, 直接在头部插入
+		// 查看头节点是否是node的儿子
 		if bytes.Equal(n.In.GetParentProposalId(), node.In.GetProposalId()) {
 			node.Sons = append(node.Sons, n)
 			t.OrphanList.Remove(curPtr)
-			t.OrphanList.PushBack(node)
-			return nil
+			continue
 		}
 		// 否则遍历该树试图挂在子树上面
-		parent := DFSQuery(n, node.In.GetParentProposalId())
-		if parent != nil {
-			parent.Sons = append(parent.Sons, node)
-			return nil
+		if !hung {
+			if parent := DFSQuery(n, node.In.GetParentProposalId()); parent != nil {
+				parent.Sons = append(parent.Sons, node)
+				hung = true
+			}
 		}
 	}
 	// 没有可以挂的地方，则直接append
-	t.OrphanList.PushBack(node)
+	if !hung {
+		t.OrphanList.PushBack(node)
+	}
 	return nil
 }
 
